@@ -5,7 +5,7 @@ from common import Case
 
 TITLE = 'Tricks are won, led and counted according to the laws of play'
 REQUIRED = ['calc_highest_spec', 'trick_winner_is_law', 'opening_lead_and_dummy', 'turn_passes_clockwise',
-            'winner_leads_next', 'one_trick_credited_to_winners_side', 'history_is_tricksOf',
+            'winner_unique', 'winner_leads_next', 'one_trick_credited_to_winners_side', 'incomplete_trick_step', 'history_is_tricksOf', 'passed_out_not_playable',
             'after_52_cards', 'has_done_iff_52']
 RULE = ('random contracts (35 bids x 4 declarers) and deals (incl. voids / long suits) played to the end through '
         'PlayingPhaseWithHands.play_card_by_player with a follow-suit / revoke mix, plus calc_highest on random 1..4-card '
